@@ -95,6 +95,10 @@ def main():
                            glob.glob(os.path.join(HERE, 'seeded', '*', 'patch.diff')))
     results = []
     for p in paths:
+        meta = os.path.join(os.path.dirname(p), 'meta.json')
+        if os.path.exists(meta) and json.load(open(meta)).get('superseded'):
+            print(json.dumps({'mutant': os.path.basename(os.path.dirname(p)), 'superseded': True}))
+            continue
         r = run_one(p, runs)
         results.append(r)
         print(json.dumps(r, sort_keys=True))
